@@ -94,6 +94,9 @@ class FibRun:
 
     def validator(self):
         async def hv(name, sig, ctx=None):
+            if getattr(hv, 'retired', False):
+                # legacy: app.int_validator was reassigned since; the validator "in force" is the current one
+                self.bg.append('retired-int-validator-called')
             if ctx is not None:
                 i = self.int_id_of(ctx['int_param'])
             else:
@@ -240,6 +243,11 @@ class FibRun:
             it = ev['it']
             self.nint += 1
             i = self.nint
+            if self.front == 'legacy' and i % 3 == 0:
+                # the application replaces its default Interest validator while handlers are attached (seed round 6:
+                # the default had been frozen into the handler entry at attach time)
+                self.app.int_validator.retired = True
+                self.app.int_validator = self.validator()
             signer = None
             app_param = None
             if it['params'] or it['signed']:
